@@ -41,6 +41,7 @@ def run(ctx):
     # actions re-encoded by Repr / Finalize go through EncodeCatRows: the expansion of a categorical must be a one-hot and keys must be taken as keys
     from . import c13
     c13.r17_categorical_expansion(ctx, rule="C10.R10")
+    r11_representation_tables(ctx)
     # re-encoding must not rewrite the old interaction (Repr compares new['actions'] with old['actions'] to decide whether to rebuild the rewards)
     from . import c04
     c04.r3_copy_before_mutate(ctx, rule="C10.R8", only={"EncodeCatRows"})
@@ -76,6 +77,22 @@ def r9_batch_by_key(ctx, rule="C10.R9"):
                              for y in ast.walk(fn))
             ctx.ob(rule, EF, "Batch.filter", st, f"the batched field is gathered by its key `{K}` from every member (no positional use of values())", by_key and not positional)
     ctx.floor(rule, "batched field stores in Batch.filter", n, 2)
+
+
+def r11_representation_tables(ctx, rule="C10.R11"):
+    """Densify's look-up table must stay collision free across pickling, and no re-representation may be memoised by object identity."""
+    from . import c04
+    ctx.rule(rule, "re-representations are functions of the VALUE: Densify's restored look-up table continues its position generator exactly where it was (one replayed draw per stored key); "
+                   "no filter memoises a converted action set under id(<object>) -- CPython re-uses the addresses of freed lists, a stream then gets an earlier interaction's actions")
+    c04.densify_replay(ctx, rule)
+    n = 0
+    for rel in (EF, "coba/pipes/filters.py", "coba/pipes/rows.py"):
+        mod = ctx.model.modules[rel]
+        for c in [c for c in ast.walk(mod.tree) if isinstance(c, ast.Call) and isinstance(c.func, ast.Name) and c.func.id == "id" and len(c.args) == 1]:
+            n += 1
+            from ..model import qualname
+            ctx.ob(rule, rel, qualname(c), c, "object identity (id()) is not used as a key for converted values", False, detail={"call": unparse(c)})
+    ctx.ob(rule, EF, "", None, f"no id()-keyed memo in the representation filters ({n} found)", n == 0, stmt="no identity-keyed memo", line=1)
 
 
 CORE = "coba/environments/core.py"
@@ -480,6 +497,9 @@ def r4_finalize(ctx):
 
 
 CONTROLS = [
+    ("sparse action sets memoised by id()", EF, M.replace_expr("Sparsify.filter", "list(map(self._make_sparse, new['actions'], repeat(actions_has_headers), repeat('action')))",
+        "{}.setdefault(id(new['actions']), list(map(self._make_sparse, new['actions'], repeat(actions_has_headers), repeat('action'))))"), "C10.R11"),
+    ("Densify restores its table before replaying", EF, M.replace_stmt("Densify.__setstate__", lambda st: isinstance(st, ast.For), "for key in lookup: self._lookup.get(key)"), "C10.R11"),
     ("batch transposed by position", EF, M.replace_expr("Batch.filter", "list(map(itemgetter(key), batch))", "list(list(zip(*[i.values() for i in batch]))[list(first).index(key)])"), "C10.R9"),
     ("DiscreteReward rewards taken over by position unconditionally", EF, M.replace_expr("Repr.filter", "isinstance(old[target], DiscreteReward) and old[target].actions == old['actions']", "isinstance(old[target], DiscreteReward)"), "C10.R1"),
     ("Densify re-represents the logged action under the context switch", EF, M.replace_expr("Densify.filter", "self._action and 'action' in new", "self._context and 'action' in new"), "C10.R3"),
